@@ -65,7 +65,7 @@ def handle_ctors(ctx, cls: str) -> List[Tuple[Func, ast.Call, str]]:
     return out
 
 
-@rule("C04.R1", ["C04", "C05", "C01", "C02", "C03"], min_instances=2, design="3.4")
+@rule("C04.R1", ["C04", "C05", "C01", "C02", "C03", "C06", "C07"], min_instances=2, design="3.4")
 def handle_configuration_agreement(ctx):
     """Every text handle whose bytes end up in the primary file is opened with the storage's encoding and newline."""
     cls = csv_cls(ctx)
@@ -79,7 +79,7 @@ def handle_configuration_agreement(ctx):
             p_ = ctor_param_of(ctx, cls, v, f)
             if p_ != opt:
                 bad.append(f"{opt}={norm(v)} does not resolve to the constructor's `{opt}` parameter")
-        yield Ob("C04.R1", ["C04", "C05", "C01", "C02", "C03"], f"{f.qual} | {role} handle configuration | {call_name(c)}(...)", not bad,
+        yield Ob("C04.R1", ["C04", "C05", "C01", "C02", "C03", "C06", "C07"], f"{f.qual} | {role} handle configuration | {call_name(c)}(...)", not bad,
                  "; ".join(bad) if bad else "encoding and newline are the constructor's", ctx.prog.loc(c))
 
 
@@ -142,7 +142,7 @@ def _node_effects(ctx, g, f: Func, storage: Optional[str]) -> Dict[int, Set[str]
     return out
 
 
-@rule("C04.R3", ["C04", "C01", "C02", "C03"], min_instances=1, design="3.4")
+@rule("C04.R3", ["C04", "C01", "C02", "C03", "C06"], min_instances=1, design="3.4")
 def flush_before_publication(ctx):
     """The temporary handle is flushed or closed on every path before its file is copied/renamed over the primary."""
     cls = csv_cls(ctx)
@@ -154,7 +154,7 @@ def flush_before_publication(ctx):
     if not pubs:
         handle_level = [i for i, es in ne.items() if any(e.startswith("FS.copy(TEMP->") for e in es)]
         if handle_level:
-            yield Ob("C04.R3", ["C04", "C01", "C02", "C03"], f"{f.qual} | staged rows flushed before publication | "
+            yield Ob("C04.R3", ["C04", "C01", "C02", "C03", "C06"], f"{f.qual} | staged rows flushed before publication | "
                      f"handle-level copy", True, "the temporary handle itself is read (its buffer is flushed by the seek)",
                      f.loc(), nontrivial=False)
             return
@@ -168,7 +168,7 @@ def flush_before_publication(ctx):
         ga.postdominated(i, lambda x: "TEMP.flush" in nea.get(x.id, set()), [ga.exit]) for i in writes)
     for pnode in pubs:
         ok = always_flushed or g.dominated(pnode, lambda x: bool({"TEMP.flush", "TEMP.close"} & ne.get(x.id, set())))
-        yield Ob("C04.R3", ["C04", "C01", "C02", "C03"], f"{f.qual} | staged rows flushed before publication | "
+        yield Ob("C04.R3", ["C04", "C01", "C02", "C03", "C06"], f"{f.qual} | staged rows flushed before publication | "
                  f"{norm(g.nodes[pnode].ast, 70)}", ok,
                  "temporary handle is flushed/closed before its file is published" if ok else
                  "rows staged in the temporary handle's buffer are not flushed before the file is copied "
@@ -181,7 +181,7 @@ def _node_effects_const(ctx, g, f: Func, storage: str, consts: Dict[str, object]
     cls = ctx.res.self_class(f)
     roles = ctx.eff.roles.get(cls) if cls else None
     live = live_nodes(f.body, consts)
-    env = ctx.eff._role_env(f, live)
+    env = ctx.eff._role_env(f, live, consts)
     live_ids = {id(x) for x in live}
     out: Dict[int, Set[str]] = {}
     for nd in g.stmt_nodes():
@@ -225,20 +225,25 @@ def appends_land_at_eof(ctx):
                  f.loc())
 
 
-def _eval_mode(e: ast.AST, m: str, mode_attr: str):
+def _eval_mode(e: ast.AST, m: str, mode_attr: str, f: Optional[Func] = None, depth: int = 0):
     """Evaluate a mode expression for self.<mode_attr> == m (tiny string evaluator)."""
     if isinstance(e, ast.Constant):
         return e.value
+    if isinstance(e, ast.Name) and f is not None and depth < 4:
+        vals = assignments_to(f, e.id)
+        if len(vals) == 1:
+            return _eval_mode(vals[0], m, mode_attr, f, depth + 1)
+        return NOCONST
     if is_self_attr(e, mode_attr):
         return m
     if isinstance(e, ast.IfExp):
-        t = _eval_mode(e.test, m, mode_attr)
+        t = _eval_mode(e.test, m, mode_attr, f, depth)
         if t is NOCONST:
             return NOCONST
-        return _eval_mode(e.body if t else e.orelse, m, mode_attr)
+        return _eval_mode(e.body if t else e.orelse, m, mode_attr, f, depth)
     if isinstance(e, ast.Compare) and len(e.ops) == 1:
-        l = _eval_mode(e.left, m, mode_attr)
-        r = _eval_mode(e.comparators[0], m, mode_attr)
+        l = _eval_mode(e.left, m, mode_attr, f, depth)
+        r = _eval_mode(e.comparators[0], m, mode_attr, f, depth)
         if l is NOCONST or r is NOCONST:
             return NOCONST
         op = e.ops[0]
@@ -254,19 +259,19 @@ def _eval_mode(e: ast.AST, m: str, mode_attr: str):
         except Exception:
             return NOCONST
     if isinstance(e, (ast.Tuple, ast.List, ast.Set)):
-        vs = [_eval_mode(x, m, mode_attr) for x in e.elts]
+        vs = [_eval_mode(x, m, mode_attr, f, depth) for x in e.elts]
         return NOCONST if any(v is NOCONST for v in vs) else tuple(vs)
     if isinstance(e, ast.BoolOp):
-        vs = [_eval_mode(x, m, mode_attr) for x in e.values]
+        vs = [_eval_mode(x, m, mode_attr, f, depth) for x in e.values]
         if any(v is NOCONST for v in vs):
             return NOCONST
         return all(vs) if isinstance(e.op, ast.And) else any(vs)
     if isinstance(e, ast.UnaryOp) and isinstance(e.op, ast.Not):
-        v = _eval_mode(e.operand, m, mode_attr)
+        v = _eval_mode(e.operand, m, mode_attr, f, depth)
         return NOCONST if v is NOCONST else (not v)
     if isinstance(e, ast.Call) and isinstance(e.func, ast.Attribute):
-        recv = _eval_mode(e.func.value, m, mode_attr)
-        args = [_eval_mode(a, m, mode_attr) for a in e.args]
+        recv = _eval_mode(e.func.value, m, mode_attr, f, depth)
+        args = [_eval_mode(a, m, mode_attr, f, depth) for a in e.args]
         if recv is NOCONST or any(a is NOCONST for a in args) or not isinstance(recv, str):
             return NOCONST
         if e.func.attr in ("startswith", "endswith", "replace", "strip", "lstrip", "rstrip") and not e.keywords:
@@ -293,7 +298,7 @@ def mode_table(ctx, cls: str, prop: str) -> Tuple[str, Set[str]]:
     raise AnalysisError("modes", f"{cls}.{prop}: literal mode table not found")
 
 
-@rule("C04.R5", ["C04", "C12", "C13", "C01", "C02", "C03"], min_instances=1, design="3.4")
+@rule("C04.R5", ["C04", "C12", "C13", "C01", "C02", "C03", "C06"], min_instances=1, design="3.4")
 def reopen_does_not_truncate(ctx):
     """The primary file is never reopened in a truncating mode after new contents were published."""
     cls = csv_cls(ctx)
@@ -308,12 +313,8 @@ def reopen_does_not_truncate(ctx):
             if me is None:
                 bad.append("reopened read-only (default mode): the storage can no longer be written")
             else:
-                if isinstance(me, ast.Name):
-                    vals = assignments_to(f, me.id)
-                    if len(vals) == 1:
-                        me = vals[0]
                 for m in sorted(wmodes):
-                    v = _eval_mode(me, m, mode_attr)
+                    v = _eval_mode(me, m, mode_attr, f)
                     if v is NOCONST:
                         raise AnalysisError("C04.R5", f"cannot evaluate reopen mode `{norm(me)}` for access mode {m!r}")
                     if isinstance(v, str) and v.startswith("w"):
@@ -321,11 +322,11 @@ def reopen_does_not_truncate(ctx):
                                    f"published")
                     elif isinstance(v, str) and ("+" not in v and not v.startswith("a")) and m != v:
                         bad.append(f"access_mode={m!r}: reopen mode {v!r} is not writable")
-            yield Ob("C04.R5", ["C04", "C12", "C13", "C01", "C02", "C03"], f"{f.qual} | reopen mode | {norm(n, 80)}", not bad,
+            yield Ob("C04.R5", ["C04", "C12", "C13", "C01", "C02", "C03", "C06"], f"{f.qual} | reopen mode | {norm(n, 80)}", not bad,
                      "; ".join(bad) if bad else f"no write-capable access mode {sorted(wmodes)} reopens with truncation",
                      ctx.prog.loc(n))
     if not n_open:
-        yield Ob("C04.R5", ["C04", "C12", "C13", "C01", "C02", "C03"], f"{f.qual} | reopen mode | none", True,
+        yield Ob("C04.R5", ["C04", "C12", "C13", "C01", "C02", "C03", "C06"], f"{f.qual} | reopen mode | none", True,
                  "the primary file is not reopened by the swap", f.loc(), nontrivial=False)
 
 
@@ -593,7 +594,7 @@ def insert_io_bounded_by_input(ctx):
         live = live_nodes(f.body, consts)
         live_ids = {id(x) for x in live}
         roles = ctx.eff.roles.get(ctx.res.self_class(f) or "")
-        env = ctx.eff._role_env(f, live)
+        env = ctx.eff._role_env(f, live, consts)
         for n in live:
             if isinstance(n, ast.Call):
                 # follow package callees that have I/O effects
@@ -679,3 +680,55 @@ def insert_forwards_input_unchanged(ctx):
             bad.append(f"`{helper.params()[1]}` is rebound before the loop: `{norm(reassigned[0], 50)}`")
     yield Ob("C16.R4", ["C16", "C12", "C01"], f"{helper.qual} | iterates the caller's points in order", not bad,
              "; ".join(bad) if bad else "for point in points, one append per point", helper.loc())
+
+
+@rule("C04.R7", ["C04", "C05", "C12", "C16"], min_instances=3, design="3.4")
+def csv_handle_hygiene(ctx):
+    """The csv module's requirements on the storage configuration: newline defaults to '', the dialect kwargs are the caller's unchanged, and the buffered handles are never bypassed with fd-level calls."""
+    cls = csv_cls(ctx)
+    init = ctx.prog.classes[cls].methods["__init__"]
+    d = init.defaults().get("newline")
+    ok = d is not None and const_value(d) == ""
+    yield Ob("C04.R7", ["C04", "C05"], f"{init.qual} | newline defaults to ''", ok,
+             "files are opened with newline='' as the csv module requires" if ok else
+             f"default newline is {norm(d) if d is not None else 'missing'}: with universal newlines a CR or CRLF inside a "
+             f"quoted value is read back as LF", init.loc())
+    # the dialect kwargs must reach csv unchanged
+    kw_name = init.node.args.kwarg.arg if init.node.args.kwarg is not None else None
+    muts = []
+    if kw_name:
+        for n in walk_local(init.node):
+            if isinstance(n, ast.Call) and isinstance(n.func, ast.Attribute) and isinstance(n.func.value, ast.Name) \
+                    and n.func.value.id == kw_name and n.func.attr in ("setdefault", "update", "pop", "popitem", "clear"):
+                muts.append(n)
+            if isinstance(n, (ast.Assign, ast.AugAssign, ast.Delete)):
+                ts = n.targets if isinstance(n, (ast.Assign, ast.Delete)) else [n.target]
+                for t in ts:
+                    if isinstance(t, ast.Subscript) and isinstance(t.value, ast.Name) and t.value.id == kw_name:
+                        muts.append(n)
+    yield Ob("C04.R7", ["C04", "C05"], f"{init.qual} | csv dialect kwargs passed through unchanged", not muts,
+             "the caller's dialect options are stored as given" if not muts else
+             f"`{norm(muts[0], 60)}` changes the dialect the caller asked for (e.g. a different lineterminator changes "
+             f"which characters the writer quotes)", init.loc())
+    # fd-level calls on a buffered handle
+    roles = ctx.eff.roles[cls]
+    n_sites = 0
+    for f in ctx.prog.methods_of(cls):
+        env = ctx.eff._role_env(f, list(walk_local(f.node)))
+        for c in walk_local(f.node):
+            if not (isinstance(c, ast.Call) and isinstance(c.func, ast.Attribute)):
+                continue
+            fd_args = [a for a in list(c.args) + [k.value for k in c.keywords]
+                       if any(r.endswith("_FD") for r in ctx.eff.expr_roles(a, roles, env))]
+            if not fd_args:
+                continue
+            n_sites += 1
+            fn = norm(c.func)
+            ok = fn in ("os.fsync", "os.fdatasync")
+            yield Ob("C04.R7", ["C04", "C12"] + (["C16"] if f.name == "append" else []),
+                     f"{f.qual} | fd-level call on a buffered handle | {norm(c, 60)}{occ(f, c)}",
+                     ok, "fsync of the flushed handle" if ok else
+                     f"{fn} works on the file descriptor behind the text layer's buffer: buffered rows are written "
+                     f"later at stale offsets / sizes are read before the buffer is flushed", ctx.prog.loc(c))
+    if n_sites == 0:
+        raise AnalysisError("C04.R7", "no fd-level call (fsync) found on a storage handle")
